@@ -176,8 +176,19 @@ func errLookedAt(p *Prog, fi *FuncInfo) map[string]string {
 					msg = "the error of " + callee + " can be lost without having been looked at (overwritten or the function returns): " + f.Describe(path)
 				}
 				out[key] = msg
+				// a named result: the rules below apply when every return of the function is explicit (a bare return
+				// hands the named value on, whatever it is)
 				if named[o] {
-					continue
+					bare := false
+					inspectNoLit(body, func(x ast.Node) bool {
+						if ret, ok := x.(*ast.ReturnStmt); ok && len(ret.Results) == 0 {
+							bare = true
+						}
+						return true
+					})
+					if bare || bi != 0 {
+						continue
+					}
 				}
 				// a helper the reference tree did not have and that returns nothing cannot refuse: what follows its failed
 				// step is decided in its caller, whose rules read the helper's body in place
